@@ -534,6 +534,11 @@ var specBounds = []specBound{
 	{"parseListMarker", "iter<=", 9, 1, "ordered list marker: 1–9 digits (the list-marker block spans what this recogniser accepts)", []string{">=11"}, "C13"},
 }
 
+// specBoundGroups: limits of one recogniser that are measured on the same quantity (both ends of one range).
+var specBoundGroups = map[string][]specBound{
+	"parseAutolink": {{fn: "parseAutolink", dir: "<=", T: 2, count: 1}, {fn: "parseAutolink", dir: ">=", T: 34, count: 1}},
+}
+
 // thresholdsOf normalises every comparison of a non-constant integer with a constant in fn to (dir, T).
 // A comparison whose variable is a unit-stride loop counter (a header phi with a constant start a and a back edge
 // counter+1) is additionally recorded by the number of values the counter can take while the comparison holds:
@@ -576,6 +581,11 @@ func thresholdsOf(fn *ssa.Function) map[string]int {
 		var k int64
 		var op token.Token
 		var variable ssa.Value
+		switch bo.Op {
+		case token.LSS, token.LEQ, token.GTR, token.GEQ, token.EQL, token.NEQ:
+		default:
+			return
+		}
 		if c, ok := constInt(bo.Y); ok {
 			if _, isC := constInt(bo.X); isC {
 				return
@@ -586,6 +596,31 @@ func thresholdsOf(fn *ssa.Function) map[string]int {
 			op = map[token.Token]token.Token{token.LSS: token.GTR, token.LEQ: token.GEQ, token.GTR: token.LSS, token.GEQ: token.LEQ}[bo.Op]
 			variable = bo.Y
 		} else {
+			// a limit chosen among constants (limit := 7; if hex { limit = 6 }; n > limit+1) or capped by a constant
+			// (limit := min(len(s), 63); i < limit): one threshold per constant
+			flipped := map[token.Token]token.Token{token.LSS: token.GTR, token.LEQ: token.GEQ, token.GTR: token.LSS, token.GEQ: token.LEQ}
+			record := func(variable ssa.Value, op token.Token, ks []int64) {
+				if b, ok := variable.Type().Underlying().(*types.Basic); !ok || b.Info()&types.IsInteger == 0 || b.Kind() == types.Uint8 {
+					return
+				}
+				for _, k := range ks {
+					switch op {
+					case token.LSS:
+						out[fmt.Sprintf("<=%d", k-1)]++
+					case token.LEQ:
+						out[fmt.Sprintf("<=%d", k)]++
+					case token.GTR:
+						out[fmt.Sprintf(">=%d", k+1)]++
+					case token.GEQ:
+						out[fmt.Sprintf(">=%d", k)]++
+					}
+				}
+			}
+			if ks := limitConstants(bo.Y); len(ks) > 0 {
+				record(bo.X, bo.Op, ks)
+			} else if ks := limitConstants(bo.X); len(ks) > 0 {
+				record(bo.Y, flipped[bo.Op], ks)
+			}
 			return
 		}
 		if b, ok := variable.Type().Underlying().(*types.Basic); !ok || b.Info()&types.IsInteger == 0 || b.Kind() == types.Uint8 {
@@ -617,6 +652,33 @@ func thresholdsOf(fn *ssa.Function) map[string]int {
 	return out
 }
 
+// limitConstants: v is (a constant offset from) a phi some of whose edges are constants, or min/max of something and a constant.
+func limitConstants(v ssa.Value) []int64 {
+	b, k := linTerm(v)
+	if ph, ok := b.(*ssa.Phi); ok {
+		var out []int64
+		for _, e := range ph.Edges {
+			// non-constant edges are other bounds (limit := len(s); if limit > 63 { limit = 63 })
+			if c, isC := constInt(e); isC {
+				out = append(out, c+k)
+			}
+		}
+		return out
+	}
+	if cl, ok := b.(*ssa.Call); ok {
+		if bi, ok := cl.Call.Value.(*ssa.Builtin); ok && (bi.Name() == "min" || bi.Name() == "max") {
+			var out []int64
+			for _, a := range cl.Call.Args {
+				if c, isC := constInt(a); isC {
+					out = append(out, c+k)
+				}
+			}
+			return out
+		}
+	}
+	return nil
+}
+
 func ruleSpecBounds(c *Ctx) { ruleSpecBoundsFor(c, "C15") }
 
 func ruleSpecBoundsFor(c *Ctx, prop string) {
@@ -635,6 +697,27 @@ func ruleSpecBoundsFor(c *Ctx, prop string) {
 		got := th[fmt.Sprintf("%s%d", sb.dir, sb.T)]
 		for _, a := range sb.alts {
 			got += th[a]
+		}
+		if got < sb.count {
+			// the two ends of one range may be measured from another origin (a count of characters instead of an
+			// index that includes what precedes them): accepted when every limit of the same function and property
+			// that shares a basis is present with the same shift
+			if grp := specBoundGroups[sb.fn]; len(grp) > 1 {
+				for s := int64(-3); s <= 3 && got < sb.count; s++ {
+					if s == 0 {
+						continue
+					}
+					all := true
+					for _, o := range grp {
+						if th[fmt.Sprintf("%s%d", o.dir, o.T+s)] < o.count {
+							all = false
+						}
+					}
+					if all {
+						got = sb.count
+					}
+				}
+			}
 		}
 		var all []string
 		for k, n := range th {
